@@ -77,8 +77,8 @@ theorem net_agreement_blocks (hwf : WF C) {net : Net} (hr : Reach C net) (hA2 : 
     (h1 : Out.commit ba ca ∈ net.outs a) (h2 : Out.commit bb cb ∈ net.outs b) :
     ba.hash = bb.hash ∧ ((ba.hash = bb.hash → ba = bb) → ba = bb) := by
   have hbody := reach_blocks hwf hr hA2
-  have e1 := (hbody a ha hma).2.2 ba ca h1
-  have e2 := (hbody b hb hmb).2.2 bb cb h2
+  have e1 := (hbody a ha hma).2.1 ba ca h1
+  have e2 := (hbody b hb hmb).2.1 bb cb h2
   have := net_agreement hwf hr ha hb hma hmb h1 h2
   have hh : ba.hash = bb.hash := by rw [e1, e2, this]
   exact ⟨hh, fun hinj => hinj hh⟩
@@ -88,7 +88,7 @@ COMMITs in its certificate (the hash `ValidateBlockConsensus` checks the block a
 theorem net_committed_block_matches (hwf : WF C) {net : Net} (hr : Reach C net) (hA2 : TraceA2 net.trace) {a : Nat}
     (ha : C.honest a = true) (hma : ∃ m ∈ C.ms, m.id = a) {ba : Block} {ca : List CMsg}
     (h1 : Out.commit ba ca ∈ net.outs a) : ba.hash = commitHash ca :=
-  (reach_blocks hwf hr hA2 a ha hma).2.2 ba ca h1
+  (reach_blocks hwf hr hA2 a ha hma).2.1 ba ca h1
 
 /-- the certified hash was accepted (PREPARE sent, or proposed as leader) by a correct member -/
 theorem net_decided_was_accepted (hwf : WF C) {net : Net} (hr : Reach C net) {a : Nat}
